@@ -496,6 +496,23 @@ where
                 }
             }
         }
+        // y at the threshold of the sign flag (a = 0: x is a cube root of y^2 - b)
+        if !enumerate && a.is_zero() {
+            let mut found = 0;
+            for y in sign_threshold_elems::<P::BaseField>() {
+                if found >= 6 {
+                    break;
+                }
+                if let Some(x) = cube_root(&(y.square() - b)) {
+                    let q = Sw::Aff(x, y);
+                    if sw_on_curve(&a, &b, &q) {
+                        let insub = cof1 || ref_mul(&sw_to_proj::<P>(&q, &P::BaseField::one(), &P::BaseField::one(), &P::BaseField::one()), &r).is_zero();
+                        special.push((q, insub, "y-at-sign-threshold"));
+                        found += 1;
+                    }
+                }
+            }
+        }
         let mut all = Vec::new();
         if enumerate {
             let pts = enumerate_sw::<P>();
@@ -511,8 +528,105 @@ where
                 all.push((q, insub));
             }
         }
+        if std::env::var_os("VH_DEBUG_SPECIAL").is_some() {
+            eprintln!("special[{}]: {:?}", std::any::type_name::<P>(), special.iter().map(|s| (s.2, s.1)).collect::<Vec<_>>());
+        }
         SwCtx { tw, pool, special, all }
     }
+}
+
+/// a cube root in any finite field (input construction only: the result is verified by cubing)
+fn cube_root<F: Field>(w: &F) -> Option<F> {
+    if w.is_zero() {
+        return Some(F::zero());
+    }
+    let q1 = big(F::characteristic()).pow(F::extension_degree() as u32) - 1u32;
+    let three = BigUint::from(3u32);
+    let pw = |x: &F, e: &BigUint| x.pow(e.to_u64_digits());
+    let inv3 = |m: &BigUint| -> BigUint {
+        // 3 e = 1 (mod m), m not divisible by 3
+        if (m % 3u32) == BigUint::from(2u32) {
+            (m + 1u32) / 3u32
+        } else {
+            (m * 2u32 + 1u32) / 3u32
+        }
+    };
+    let x = if (&q1 % 3u32) != BigUint::from(0u32) {
+        pw(w, &inv3(&q1))
+    } else {
+        if !pw(w, &(&q1 / 3u32)).is_one() {
+            return None;
+        }
+        let (mut s, mut t) = (0u32, q1.clone());
+        while (&t % 3u32) == BigUint::from(0u32) {
+            t /= 3u32;
+            s += 1;
+        }
+        if s > 9 {
+            return None;
+        }
+        // a non-cube
+        let d = F::extension_degree() as usize;
+        let mut g = None;
+        'outer: for i in 1u64..40 {
+            for j in 0u64..(if d > 1 { 6 } else { 1 }) {
+                let mut cs = vec![F::BasePrimeField::zero(); d];
+                cs[0] = F::BasePrimeField::from(i);
+                if d > 1 {
+                    cs[1] = F::BasePrimeField::from(j);
+                }
+                let c = F::from_base_prime_field_elems(cs)?;
+                if !c.is_zero() && !pw(&c, &(&q1 / 3u32)).is_one() {
+                    g = Some(c);
+                    break 'outer;
+                }
+            }
+        }
+        let c = pw(&g?, &t); // order 3^s
+        let x0 = pw(w, &inv3(&t));
+        let b = x0.square() * x0 * w.inverse()?; // order divides 3^(s-1)
+        let c3 = c.square() * c;
+        let (mut acc, mut cj) = (F::one(), F::one());
+        let mut found = None;
+        for _ in 0..three.pow(s - 1).to_u64_digits().first().copied().unwrap_or(1) {
+            if acc == b {
+                found = Some(cj);
+                break;
+            }
+            acc *= c3;
+            cj *= c;
+        }
+        x0 * found?.inverse()?
+    };
+    if x.square() * x == *w {
+        Some(x)
+    } else {
+        None
+    }
+}
+
+/// elements at the threshold of the "is y (x) the larger of the two roots" flag: the most significant non-zero
+/// coefficient equal to (p-1)/2 or (p+1)/2
+fn sign_threshold_elems<F: Field>() -> Vec<F> {
+    let d = F::extension_degree() as usize;
+    let half = F::BasePrimeField::from_bigint(F::BasePrimeField::MODULUS_MINUS_ONE_DIV_TWO).unwrap();
+    let mut out = Vec::new();
+    for top in [half, half + F::BasePrimeField::one()] {
+        for pos in 0..d {
+            for k in 0u64..(if pos == 0 { 1 } else { 12 }) {
+                let mut cs = vec![F::BasePrimeField::zero(); d];
+                cs[pos] = top;
+                if pos > 0 {
+                    cs[0] = F::BasePrimeField::from(k);
+                    if k % 3 == 2 {
+                        cs[pos - 1] = -F::BasePrimeField::from(k);
+                    }
+                }
+                out.push(F::from_base_prime_field_elems(cs).unwrap());
+            }
+        }
+    }
+    out
 }
 
 /// every element of a small field (prime or extension): index digits in base p are the prime-field coordinates
@@ -793,6 +907,19 @@ where
                 }
             }
         }
+        // x at the threshold of the sign flag: y^2 = (1 - a x^2) / (1 - d x^2)
+        if !enumerate {
+            for x in sign_threshold_elems::<P::BaseField>() {
+                let x2 = x.square();
+                if let Some(y) = (one - d * x2).inverse().and_then(|i| ((one - a * x2) * i).sqrt()) {
+                    let q = Te(x, y);
+                    if te_on_curve(&a, &d, &q) {
+                        let insub = matches!(te_mul(&a, &d, &q, &r), Some(z) if z == te_identity());
+                        special.push((q, insub, "x-at-sign-threshold"));
+                    }
+                }
+            }
+        }
         let mut all = Vec::new();
         if enumerate {
             let p: u64 = big(P::BaseField::characteristic()).to_u64_digits()[0];
@@ -807,6 +934,9 @@ where
                     }
                 }
             }
+        }
+        if std::env::var_os("VH_DEBUG_SPECIAL").is_some() {
+            eprintln!("special[{}]: {:?}", std::any::type_name::<P>(), special.iter().map(|s| (s.2, s.1)).collect::<Vec<_>>());
         }
         TeCtx { tw, pool, special, all }
     }
@@ -1046,7 +1176,7 @@ fn relations(tier: Tier) -> Vec<Rel> {
 fn main() {
     vh_core::engine::main(PropSpec {
         id: "C09",
-        rule: "Field values come from the edge-biased tower generator (0, 1, p-1, (p±1)/2, R, 2^k±1, edge limbs, uniform; sparse/dense extension elements) over 32 zoo prime fields (0..7 spare bits in the top byte, 1..13 limbs, ten moduli of exactly 8k bits), 14 towers (two harness Fp2 over moduli without spare bits) and are (de)serialized with EmptyFlags, SWFlags, TEFlags, harness flags of 1..8 bits and a restrictive 3-bit flag type. Curve points: identity, generator, sums of multiples of G, points decompressed from edge x (resp. y), x=0 / y=0 / 2-torsion / out-of-subgroup points, affine and projective with Z != 1, on 32 shipped SW and 10 shipped TE configurations; every point of 11+7 toy curves over prime fields (incl. the 8-bit prime 251, whose flags need an extra byte) and of 4 toy curves over F_49 / F_343 x 3 representations exhaustively. Uniqueness inputs are derived from an encoding produced by the harness' own encoder: + k p, exactly p, one unused high bit, stray bits in the extra flag byte, invalid flag pattern, bit flip, uniform bytes. Oracles: decode(encode(v)) == v through raw coordinates in all four modes (checked modes only for points known to be in the subgroup), len == serialized_size == (un)compressed_size, flags returned; Ok((v,f)) => serialize_with_flags(v,f) == input byte for byte. Non-trivial: value not in {0, 1, identity, generator}, or an input that differs from the valid encoding; distinct = distinct decoded choice sequences.",
+        rule: "Field values come from the edge-biased tower generator (0, 1, p-1, (p±1)/2, R, 2^k±1, edge limbs, uniform; sparse/dense extension elements) over 32 zoo prime fields (0..7 spare bits in the top byte, 1..13 limbs, ten moduli of exactly 8k bits), 14 towers (two harness Fp2 over moduli without spare bits) and are (de)serialized with EmptyFlags, SWFlags, TEFlags, harness flags of 1..8 bits and a restrictive 3-bit flag type. Curve points: identity, generator, sums of multiples of G, points decompressed from edge x (resp. y), points whose y (SW, a = 0: x is a cube root of y^2 - b computed by the harness) resp. x (TE) has its most significant non-zero coefficient equal to (p-1)/2 or (p+1)/2 (the threshold of the sign flag), x=0 / y=0 / 2-torsion / out-of-subgroup points, affine and projective with Z != 1, on 32 shipped SW and 10 shipped TE configurations; every point of 11+7 toy curves over prime fields (incl. the 8-bit prime 251, whose flags need an extra byte) and of 4 toy curves over F_49 / F_343 x 3 representations exhaustively. Uniqueness inputs are derived from an encoding produced by the harness' own encoder: + k p, exactly p, one unused high bit, stray bits in the extra flag byte, invalid flag pattern, bit flip, uniform bytes. Oracles: decode(encode(v)) == v through raw coordinates in all four modes (checked modes only for points known to be in the subgroup), len == serialized_size == (un)compressed_size, flags returned; Ok((v,f)) => serialize_with_flags(v,f) == input byte for byte. Non-trivial: value not in {0, 1, identity, generator}, or an input that differs from the valid encoding; distinct = distinct decoded choice sequences.",
         assumptions: &[
             "the byte layout used to build mutated inputs (little-endian coefficients of ceil(bits/8) bytes, the last one of ceil((bits+flag bits)/8) bytes with the flags in its top bits) is the documented one; a mismatch with serialized_size_with_flags is reported as size.layout",
             "points used in checked modes are multiples of the generator computed with a reference double-and-add over Projective::double_in_place/+= (C03's subject)",
